@@ -24,6 +24,7 @@ Init == i \in 1..Len(Cases) /\ done = FALSE
 
 \* the zero-sum tree of the case with payoffs multiplied by `f`, the constant sum S and the scale
 GameOf(c) == IF c.fmt = "efg" THEN [t |-> Meaning2(c.doc), f |-> 2, S |-> SumOf(c.doc), scale |-> c.doc.scale]
+             ELSE IF c.fmt = "jdoc" THEN [t |-> JState(c.jdoc, c.scale, c.wscale).t, f |-> 1, S |-> 0, scale |-> c.scale]
              ELSE [t |-> c.tree, f |-> 1, S |-> 0, scale |-> c.scale]
 
 MaxNodes == 30
@@ -64,7 +65,8 @@ Expected(c, g) ==
 OutResult(c) ==
   LET g == GameOf(c)
       names == \A p \in 1..2 : NamesOK(g.t, p, c.strat[p])
-  IN IF ~names THEN [names_ok |-> FALSE]
+  IN IF c.fmt = "jdoc" /\ ~JState(c.jdoc, c.scale, c.wscale).ok THEN [names_ok |-> FALSE, meaning |-> FALSE]
+     ELSE IF ~names THEN [names_ok |-> FALSE]
      ELSE LET prof == ProfileOf(g.t, c.strat)
               wp == WeightProfile(prof)
               ev == IF c.exact /\ WeightsOK(wp) THEN Evaluate(g.t, wp) ELSE [poisoned |-> TRUE]
@@ -89,8 +91,12 @@ OutResult(c) ==
               expected |-> Expected(c, g)]
 
 VerdictResult(c) ==
-  [parser |-> Parser(c.flag, c.src, c.ext),
-   categories |-> Categories(Parser(c.flag, c.src, c.ext), c.class, IF c.class = "efg" THEN c.doc ELSE 0)]
+  IF c.class = "jdoc"
+  THEN LET a == JsonAdmissible(Parser(c.flag, c.src, c.ext), c.jdoc, c.scale, c.wscale)
+       IN [parser |-> Parser(c.flag, c.src, c.ext), categories |-> a.cats, solve_admissible |-> a.solve,
+           grammar |-> JStrict(c.jdoc), in_language |-> JState(c.jdoc, c.scale, c.wscale).ok]
+  ELSE LET cats == Categories(Parser(c.flag, c.src, c.ext), c.class, IF c.class = "efg" THEN c.doc ELSE 0)
+       IN [parser |-> Parser(c.flag, c.src, c.ext), categories |-> cats, solve_admissible |-> cats = {}]
 
 Next == /\ ~done
         /\ done' = TRUE
